@@ -392,7 +392,24 @@ impl<'s, 'e, 'v> Gen<'s, 'e, 'v> {
             Insn::Store { sz, s, ea }
         };
         pre.push(i);
-        self.try_emit(&pre)
+        let ok = self.try_emit(&pre);
+        // a sibling right behind it: the same base register, the same displacement number in the other width (or the
+        // same effective address through the other width) - encodings that look alike must not be confused by
+        // anything remembered between instructions
+        if ok && self.e.chance(1, 3) {
+            let sib = match ea {
+                Ea::D16(r, d) => Some(if self.e.chance(1, 2) { Ea::D24(r, d as u32) } else { Ea::D24(r, (d as i16 as i32 as u32) & MASK24) }),
+                Ea::D24(r, d) => Some(Ea::D16(r, d as u16)),
+                Ea::Ind(r) => Some(Ea::D16(r, 0)),
+                Ea::A16(a) => Some(Ea::A24(a as u32)),
+                _ => None,
+            };
+            if let Some(sib) = sib {
+                let d = self.dreg(sz);
+                let _ = self.try_emit(&[Insn::Load { sz, ea: sib, d }]);
+            }
+        }
+        ok
     }
     fn gen_arith(&mut self) -> bool {
         let i = match self.e.below(12) {
